@@ -314,6 +314,13 @@ fn case<const PW: u8, const G: i8>(g: &str, reg: Reg, front: Front, rng: &mut Pr
                 }
             }
             for (s, t) in txns.iter() {
+                if let Some(u) = &t.up {
+                    if let Ok(c) = parse_uplink_cmds(&u.mac_bytes()) {
+                        if c.iter().any(|(cid, a)| *cid == 0x07 && a.first().map(|b| b & 3 == 3).unwrap_or(false)) {
+                            col.event("newchannel_created");
+                        }
+                    }
+                }
                 // answers to a pending LinkADRReq
                 if let (Some(p), Some(u)) = (pending_linkadr, &t.up) {
                     if let Ok(c) = parse_uplink_cmds(&u.mac_bytes()) {
@@ -326,9 +333,6 @@ fn case<const PW: u8, const G: i8>(g: &str, reg: Reg, front: Front, rng: &mut Pr
                                 }
                             }
                             pending_linkadr = None;
-                        }
-                        if c.iter().any(|(cid, a)| *cid == 0x07 && a.first().map(|b| b & 3 == 3).unwrap_or(false)) {
-                            col.event("newchannel_created");
                         }
                     }
                 }
